@@ -16,13 +16,17 @@ import (
 	"testing"
 	"time"
 
+	dtlsserver "github.com/plgd-dev/go-coap/v3/dtls/server"
 	"github.com/plgd-dev/go-coap/v3/message"
 	"github.com/plgd-dev/go-coap/v3/message/codes"
 	"github.com/plgd-dev/go-coap/v3/message/noresponse"
 	"github.com/plgd-dev/go-coap/v3/message/pool"
+	"github.com/plgd-dev/go-coap/v3/mux"
 	"github.com/plgd-dev/go-coap/v3/net/responsewriter"
 	tcpclient "github.com/plgd-dev/go-coap/v3/tcp/client"
+	tcpserver "github.com/plgd-dev/go-coap/v3/tcp/server"
 	udpclient "github.com/plgd-dev/go-coap/v3/udp/client"
+	udpserver "github.com/plgd-dev/go-coap/v3/udp/server"
 
 	"verifharness/ref"
 	"verifharness/sim"
@@ -89,7 +93,7 @@ func envOpts(env int, v uint32) []ref.Opt {
 }
 
 func TestRun(t *testing.T) {
-	rec := vr.New("C20", "exhaustive: 32 No-Response values x 256 response codes (+ PRNG 32-bit values x 256 codes) on IsNoResponseCode and ResponseWriter.SetResponse; wire: every (value 0..31 plus PRNG values 32..255, code 0..255) x {CON,NON} on a real udp connection and on a real tcp connection, emitted datagrams/frames inspected; every request in one of 6 option environments (No-Response alone, with lower options, with options numbered above 258 such as 2049/2053/65000, behind many lower options). Distinct = (kind,value,code[,type]) visited once by construction.")
+	rec := vr.New("C20", "exhaustive: 32 No-Response values x 256 response codes (+ PRNG 32-bit values x 256 codes) on IsNoResponseCode and ResponseWriter.SetResponse; wire: every (value 0..31 plus PRNG values 32..255, code 0..255) x {CON,NON} on a real udp connection and on a real tcp connection, emitted datagrams/frames inspected; every request in one of 6 option environments (No-Response alone, with lower options, with options numbered above 258 such as 2049/2053/65000, behind many lower options); the library's own 4.04 generators (mux router default handler, default handlers of the udp/dtls/tcp client and server configurations) for every value. Distinct = (kind,value,code[,type]) visited once by construction.")
 	defer rec.Flush(true)
 	seed := vr.Seed()
 	rnd := rand.New(rand.NewSource(seed))
@@ -169,6 +173,7 @@ func TestRun(t *testing.T) {
 	rnd.Shuffle(len(cases), func(i, j int) { cases[i], cases[j] = cases[j], cases[i] })
 	runUDP(rec, filter(cases, "udp"))
 	runTCP(rec, filter(cases, "tcp"))
+	runLibraryHandlers(rec, wireValues)
 	rec.SetExhaustive(true)
 	rec.Sample(cases[0])
 	rec.Sample(cases[1])
@@ -417,6 +422,174 @@ func runTCP(rec *vr.Rec, cases []e2eCase) {
 			}
 		}
 		mu.Unlock()
+		cc.Close()
+	}
+}
+
+// runLibraryHandlers: the responses the library generates itself — the mux router's built-in "not found" handler and the
+// default handlers of the client/server configurations (all 4.04) — are subject to the same rule: a request that marked
+// 4.xx as not of interest gets nothing (CON: a bare ACK), any other request gets the 4.04.
+func runLibraryHandlers(rec *vr.Rec, values []uint32) {
+	router := mux.NewRouter()
+	_ = router.Handle("/x", mux.HandlerFunc(func(w mux.ResponseWriter, r *mux.Message) {
+		_ = w.SetResponse(codes.Content, message.TextPlain, bytes.NewReader([]byte("x")))
+	}))
+	udpHandlers := map[string]udpclient.HandlerFunc{
+		"mux-default-not-found": mux.ToHandler[*udpclient.Conn](router),
+		"udp-client-default":    udpclient.DefaultConfig.Handler,
+		"udp-server-default":    udpserver.DefaultConfig.Handler,
+		"dtls-server-default":   dtlsserver.DefaultConfig.Handler,
+	}
+	tcpHandlers := map[string]tcpclient.HandlerFunc{
+		"mux-default-not-found": mux.ToHandler[*tcpclient.Conn](router),
+		"tcp-client-default":    tcpclient.DefaultConfig.Handler,
+		"tcp-server-default":    tcpserver.DefaultConfig.Handler,
+	}
+	type lc struct {
+		V   uint32 `json:"no_response_value"`
+		Con bool   `json:"confirmable"`
+		Env int    `json:"option_environment"`
+		H   string `json:"library_handler"`
+		Tr  string `json:"transport"`
+	}
+	for name, h := range udpHandlers {
+		s := sim.NewMemSession()
+		cc := sim.NewUDPConn(s, sim.UDPOpts{Mutate: func(cfg *udpclient.Config) { cfg.GetMID = func() int32 { return 40000 + 0xffff/2 } }, Handler: h})
+		var cases []lc
+		for i, v := range values {
+			for _, con := range []bool{true, false} {
+				env := (i + len(cases)) % nEnv
+				if env == 1 {
+					env = 0 // the router needs a path; NR-alone would be "/" which is not found either, keep it simple
+				}
+				cases = append(cases, lc{v, con, env, name, "udp"})
+			}
+		}
+		for i, c := range cases {
+			typ := uint8(1)
+			if c.Con {
+				typ = 0
+			}
+			opts := envOpts(c.Env, c.V)
+			for j := range opts {
+				if opts[j].ID == 11 {
+					opts[j].Val = []byte("nope")
+				}
+			}
+			_ = cc.Process(nil, ref.EncodeUDP(ref.Msg{Type: typ, Code: 1, MID: uint16(i + 1), Token: tokenOf(i), Opts: opts}))
+		}
+		_ = cc.Process(nil, ref.EncodeUDP(ref.Msg{Type: 0, Code: 1, MID: 65000, Token: []byte{0x7f, 1, 2, 3}, Opts: []ref.Opt{{ID: 11, Val: []byte("nope")}}}))
+		ok := sim.WaitFor(60*time.Second, func() bool {
+			for _, d := range s.Log() {
+				if m, err := ref.ParseUDP(d.Data); err == nil && m.MID == 65000 {
+					return true
+				}
+			}
+			return false
+		})
+		if !ok {
+			rec.Inconclusive("library handlers (udp): sentinel reply not observed within the watchdog")
+			cc.Close()
+			continue
+		}
+		byMID := map[uint16][]ref.Msg{}
+		byTok := map[uint32][]ref.Msg{}
+		for _, d := range s.Log() {
+			if m, err := ref.ParseUDP(d.Data); err == nil {
+				byMID[m.MID] = append(byMID[m.MID], m)
+				if len(m.Token) == 4 {
+					byTok[binary.BigEndian.Uint32(m.Token)] = append(byTok[binary.BigEndian.Uint32(m.Token)], m)
+				}
+			}
+		}
+		for i, c := range cases {
+			sup := suppressed(c.V, 0x84)
+			rec.Eval(fmt.Sprintf("lib|udp|%s|%d|%v", name, c.V, c.Con))
+			rec.Count("library_handler_cases", 1)
+			if c.Con {
+				acks := byMID[uint16(i+1)]
+				if len(acks) != 1 || acks[0].Type != 2 {
+					rec.Violation("C20/library-handler/con-ack-count", fmt.Sprintf("%+v: replies %v", c, acks), c)
+					continue
+				}
+				if sup && (acks[0].Code != 0 || len(acks[0].Token) != 0) {
+					rec.Violation("C20/library-handler/suppressed-response-on-wire", fmt.Sprintf("%+v: the library's own 4.04 was piggybacked although 4.xx is marked not of interest: %v", c, acks[0]), c)
+				}
+				if !sup && acks[0].Code != 0x84 {
+					rec.Violation("C20/library-handler/response-dropped-or-altered", fmt.Sprintf("%+v: got %v", c, acks[0]), c)
+				}
+			} else {
+				got := byTok[binary.BigEndian.Uint32(tokenOf(i))]
+				if sup && len(got) != 0 {
+					rec.Violation("C20/library-handler/suppressed-response-on-wire", fmt.Sprintf("%+v: the library's own 4.04 was sent although 4.xx is marked not of interest: %v", c, got), c)
+				}
+				if !sup && (len(got) != 1 || got[0].Code != 0x84) {
+					rec.Violation("C20/library-handler/response-dropped-or-altered", fmt.Sprintf("%+v: got %v", c, got), c)
+				}
+			}
+		}
+		cc.Close()
+	}
+	for name, h := range tcpHandlers {
+		sc := sim.NewScriptConn()
+		cc, err := sim.NewTCPConn(sc, sim.TCPOpts{Handler: h})
+		if err != nil {
+			rec.Violation("C20/harness/tcp-client", err.Error(), nil)
+			return
+		}
+		var cases []lc
+		for i, v := range values {
+			env := i % nEnv
+			if env == 1 {
+				env = 0
+			}
+			cases = append(cases, lc{v, false, env, name, "tcp"})
+		}
+		var stream []byte
+		for i, c := range cases {
+			opts := envOpts(c.Env, c.V)
+			for j := range opts {
+				if opts[j].ID == 11 {
+					opts[j].Val = []byte("nope")
+				}
+			}
+			stream = append(stream, ref.EncodeTCP(ref.Msg{Code: 1, Token: tokenOf(i), Opts: opts})...)
+		}
+		stream = append(stream, ref.EncodeTCP(ref.Msg{Code: 1, Token: []byte{0x7f, 1, 2, 3}, Opts: []ref.Opt{{ID: 11, Val: []byte("nope")}}})...)
+		sc.Feed(stream)
+		parse := func() ([]ref.Msg, bool) {
+			ms, _ := ref.ParseTCPStream(sc.Written())
+			for _, m := range ms {
+				if bytes.Equal(m.Token, []byte{0x7f, 1, 2, 3}) {
+					return ms, true
+				}
+			}
+			return ms, false
+		}
+		if !sim.WaitFor(60*time.Second, func() bool { _, ok := parse(); return ok }) {
+			rec.Inconclusive("library handlers (tcp): sentinel reply not observed within the watchdog")
+			cc.Close()
+			continue
+		}
+		ms, _ := parse()
+		byTok := map[uint32][]ref.Msg{}
+		for _, m := range ms {
+			if len(m.Token) == 4 {
+				byTok[binary.BigEndian.Uint32(m.Token)] = append(byTok[binary.BigEndian.Uint32(m.Token)], m)
+			}
+		}
+		for i, c := range cases {
+			sup := suppressed(c.V, 0x84)
+			rec.Eval(fmt.Sprintf("lib|tcp|%s|%d", name, c.V))
+			rec.Count("library_handler_cases", 1)
+			got := byTok[binary.BigEndian.Uint32(tokenOf(i))]
+			if sup && len(got) != 0 {
+				rec.Violation("C20/library-handler/suppressed-response-on-wire", fmt.Sprintf("%+v: the library's own 4.04 was sent although 4.xx is marked not of interest: %v", c, got), c)
+			}
+			if !sup && (len(got) != 1 || got[0].Code != 0x84) {
+				rec.Violation("C20/library-handler/response-dropped-or-altered", fmt.Sprintf("%+v: got %v", c, got), c)
+			}
+		}
 		cc.Close()
 	}
 }
